@@ -38,6 +38,12 @@ def main():
         d["nested_fanout_with_failure"] = cp.fanout_depth(info.definition) >= 2 and info.profile in ("fanout_fail", "fanout_fail_nested")
         return d
 
+    for info in infos:
+        if info.status == "exception":
+            d = desc(info)
+            ck.violation("an engine callback raised %s: the process would stop, the execution never ends and its event is never acknowledged: %s"
+                         % (info.exception["error"], json.dumps({k: d[k] for k in ("profile", "schedule", "definition", "inputs")})[:1200]), {"case": d})
+            break
     # 1. the model is the code: replay the sequential runs
     pcases, pdesc = [], []
     for info in infos:
